@@ -463,6 +463,18 @@ pub const SPECIAL_GARBAGE: &[&[u8]] = &[
     b"[}", b"{]", b"[x]", b"[1,]", b"{\"a\"}", b"[[}",
 ];
 
+/// Values that almost are JSON: strings with escapes a decoder has to think about (halves
+/// of surrogate pairs, short or non-hex \u, unknown escapes), strings that are not UTF-8,
+/// numbers and containers that break the grammar late. Not garbage in C06's sense (they
+/// start like a value); whatever jawk makes of them, it must make it record-locally and
+/// without mistaking an I/O failure in the middle of one for a property of the text.
+pub const MALFORMED_VALUES: &[&[u8]] = &[
+    b"\"\\ud83d\\ude00\"", b"\"a\\ud83dz\"", b"\"\\udc00\"", b"\"\\ud83d\"", b"[\"\\ud800\\u0041\"]", b"{\"k\":\"\\ud83d\\ude00\"}",
+    b"\"\\x41\"", b"\"\\u12\"", b"\"\\u12G4\"", b"\"\\U0041\"", b"\"caf\xe9\"", b"{\"k\xff\":1}", b"\"\xed\xa0\x80\"",
+    b"01", b"1.", b"-", b"+1", b".5", b"1e", b"1e+", b"0x10", b"[1 2]", b"{\"a\" 1}", b"{\"a\":1,}", b"[,1]", b"{1:2}", b"[1,,2]",
+    b"{\"a\":}", b"'single'", b"nul", b"truefalse", b"[1]]", b"{\"a\":1}}",
+];
+
 /// Garbage that opens a container and then goes wrong (for long histories).
 pub const BROKEN_STARTS: &[&[u8]] = &[b"[}", b"{]", b"[x]", b"[1,]", b"{\"a\"}", b"[[}"];
 
